@@ -32,6 +32,19 @@ func properties() []Property {
 			Harnesses: []HarnessSpec{
 				{Name: "H_C03_faults", Profile: "bit", Quick: b("rcvKinds", 1, "denomKinds", 1, "memoKinds", 1, "amountKinds", 1, "intKinds", 2, "fees", 1, "priors", 1, "pauses", 0, "ptMax", 0), Thorough: b("rcvKinds", 2, "denomKinds", 1, "memoKinds", 1, "amountKinds", 1, "intKinds", 2, "fees", 2, "priors", 1, "pauses", 1, "ptMax", 0), Covers: []string{"some-step-failed", "error-ack", "success-ack", "success-ack-to-orbiter"}},
 			}},
+		{ID: "C05", Assumptions: []string{aSummaries, aModels, "the transfer attributes are those after arbitrary pre-actions: source amount A, destination amount D with 0 < D <= A (both symbolic), orbiter balance exactly D", "byte fields are arbitrary byte slices of 0..bytes bytes (bytes = 33 = one past the only length Hyperlane accepts); hook metadata from {empty, 0x, valid hex, bad hex, no prefix, odd length}", "depinject.go wiring is outside the claim (the harness mirrors it with the exported constructors)"},
+			Harnesses: []HarnessSpec{
+				{Name: "H_C05_cctp", Profile: "bit", Quick: b("bytes", 33), Covers: []string{"refused", "forwarded"}},
+				{Name: "H_C05_hyperlane", Profile: "bit", Quick: b("bytes", 33, "hookSym", 0, "bigDomains", 0), Thorough: b("bytes", 33, "hookSym", 1, "bigDomains", 1), TimeoutQuick: 300, Covers: []string{"refused", "forwarded"}},
+				{Name: "H_C05_internal", Profile: "bit", Covers: []string{"refused", "forwarded"}},
+				{Name: "H_C05_mismatch", Profile: "bit", Covers: []string{"identifier-and-attributes-agree", "mismatch"}},
+				{Name: "H_C05_actions", Profile: "bit", Covers: []string{"fee-action-runs", "action-refused"}},
+				{Name: "H_C05_replace", Profile: "bit", Quick: b("blob", 8), Thorough: b("blob", 64), Covers: []string{"cctp-refused", "replaced"}},
+			}},
+		{ID: "C06", Assumptions: []string{aSummaries, aModels, "registered action controllers: the real fee controller and a denomination-changing harness controller under ACTION_SWAP (records the coin it sees, replaces it by an arbitrary coin of another denom and gives the orbiter account that coin)", "amounts < 10^60, bps in [1, 10000]; internal route (the only one that carries any denomination)"},
+			Harnesses: []HarnessSpec{
+				{Name: "H_C06_order", Profile: "bit", Covers: []string{"repeated-identifier", "refused", "executed"}},
+			}},
 		{ID: "C07", Assumptions: []string{aSummaries, aModels, aE2, "events/state of the wrapped application itself are identical because it is the same single call with the same arguments on the same context (the application's internals are a model)", "acknowledgement / timeout / send callbacks: the middleware type embeds the wrapped interfaces and declares no override, shown by the method-set check of H_C07_callbacks"},
 			Harnesses: []HarnessSpec{
 				{Name: "H_C07_packets", Profile: "bit", Quick: b("rcvKinds", 8, "denomKinds", 4, "memoKinds", 2, "amountKinds", 3, "intKinds", 1, "fees", 0, "priors", 1, "pauses", 0, "ptMax", 0, "garbage", 1), Covers: []string{"not-for-orbiter"}},
